@@ -64,7 +64,15 @@ def oracle(case, rec):
             model.parameters = pt["theta"]
             if total != 0:
                 v = sympy.N(total.subs(_subs_map(total.free_symbols, m, pt)), 30)
-                scale = sum(abs(sympy.N(e.subs(_subs_map(e.free_symbols, m, pt)), 30)) for e in eqn) + 1
+                # size of the terms the DEFINITION adds up (magnitude x rate per transition, both ends): float coefficients
+                # such as 2.5e-9 leave eps-sized residues of the large coefficients they were summed with, and the model's own
+                # expression has already merged like terms
+                fo = ir.FloatOps()
+                env_ = ir.make_env(m, pt["x"], pt["t"], pt["theta"], fo, None)
+                scale = 1.0
+                for ev_ in m["events"]:
+                    r_ = abs(float(ir.evaluate(ev_["rate"], env_, fo)))
+                    scale += 2 * r_ * sum(abs(float(ir.evaluate(ir.mag_expr(tr_["mag"]), env_, fo))) for tr_ in ev_["trans"])
                 if abs(v) > 1e-12 * scale:
                     raise PropertyViolation("C10/symbolic-sum", "sum(get_ode_eqn()) = %s does not vanish (value %s)" % (total, v), case)
             f = arr(call("C10/ode", case, model.ode, pt["x"], pt["t"]), (n_s,), "ode(x,t)", "C10/ode", case)
@@ -85,6 +93,10 @@ def oracle(case, rec):
                 raise Inconclusive("integration blew up")
             tot = sol.sum(axis=1)
             if np.abs(tot - tot[0]).max() > 1e-6 * (abs(tot[0]) + np.abs(sol).max()):
+                if sol.min() < -1e-6 * (1 + np.abs(sol).max()):
+                    # rates are generated to be benign for non-negative states only; past that the system may explode and the
+                    # integrator's own error swamps a linear invariant
+                    raise Inconclusive("drift after the solution left the non-negative orthant")
                 raise PropertyViolation("C10/integrate-sum", "sum of states drifts along integrate(): %s" % tot, case)
         if interesting:
             rec.mark_nontrivial(case, {"model": pretty(m), "point": case["points"][0]})
